@@ -436,6 +436,20 @@ def _ops_st():
     )
 
 
+def sub_octave_line(ctx, shard, n):
+    """spellings whose octave number and pitch order disagree (Cb-5 sounds below B#-4, Cbb-5 below B-4): every removal form on
+    containers holding such neighbours"""
+    groups = [[["Cb", 5], ["B#", 4]], [["Cbb", 5], ["B", 4]], [["Cb", 5], ["B#", 4], ["E", 5]], [["B", 3], ["Cbb", 5], ["B", 4]],
+              [["Cbb", 6], ["A##", 5]], [["Cb", 1], ["B#", 0], ["C", 1]]]
+    cases = []
+    for g in groups:
+        build = [["add", ["pair", nm, o]] for nm, o in g]
+        for nm, o in g:
+            cases += [build + [["rm_name_oct", nm, o]], build + [["rm_name", nm]], build + [["rm_note", nm, o]],
+                      build[::-1] + [["rm_name_oct", nm, o]], build + [["rm_name_oct", nm, o], ["add", ["pair", nm, o]], ["rm_name_oct", nm, o]]]
+    ctx.enumerate("history", check_history, cases)
+
+
 def sub_random(ctx, shard, n):
     ctx.given("history", check_history, st.lists(_ops_st(), min_size=1, max_size=50), 1200 if ctx.quick else 6000)
 
@@ -489,6 +503,7 @@ def sub_constructors(ctx, shard, n):
 
 SUBS = [
     Sub("exhaustive", sub_exhaustive, quick=8, thorough=16),
+    Sub("octave_line", sub_octave_line),
     Sub("random", sub_random, quick=4, thorough=16),
     Sub("constructors", sub_constructors, quick=4, thorough=8),
 ]
